@@ -78,6 +78,87 @@ theorem C13_limits_bind_at_stats (ops : List XOp) :
   have h := lim_xrun ops
   exact ⟨congrArg Lim.accept h, congrArg Lim.max h⟩
 
+/-- **The maximum is the documented one, over the whole wire domain** (docs/source/SOULSEEK.rst, "Max children":
+`divider = (ratio / 10) * 1024`, `max = floor(avg_speed / divider)`, read over the rationals). For every speed and every
+non-zero ratio — any natural numbers, not only the values the real server sends — `k` children are within the maximum
+exactly when `k * divider ≤ speed`, i.e. `k * (ratio * 1024) ≤ speed * 10`. The literals are those of the document;
+the model's come from the code (`Generated/DistConstants.lean`). -/
+theorem C13_max_children_documented (speed ratio : Nat) (hr : 0 < ratio) (k : Nat) :
+    k ≤ maxChildrenOf speed ratio ↔ k * (ratio * 1024) ≤ speed * 10 := by
+  -- the code's literals are the document's up to a common factor (they are the document's: the factor is 1)
+  obtain ⟨g, hg, h10, h1024⟩ : ∃ g, 0 < g ∧ Generated.Dist.ratioDiv * g = 10 ∧
+      Generated.Dist.speedUnit * g = 1024 := ⟨1024 / Generated.Dist.speedUnit, by decide, by decide, by decide⟩
+  have hu : 0 < Generated.Dist.speedUnit := by decide
+  unfold maxChildrenOf
+  rw [Nat.le_div_iff_mul_le (Nat.mul_pos hr hu), ← h10, ← h1024]
+  have e1 : k * (ratio * (Generated.Dist.speedUnit * g)) = k * (ratio * Generated.Dist.speedUnit) * g := by
+    simp only [Nat.mul_assoc]
+  have e2 : speed * (Generated.Dist.ratioDiv * g) = speed * Generated.Dist.ratioDiv * g := by
+    simp only [Nat.mul_assoc]
+  rw [e1, e2]
+  exact (Nat.mul_le_mul_right_iff hg).symm
+
+/-- … hence the maximum is *the* floor: the one number `m` with `m * divider ≤ speed < (m + 1) * divider`. -/
+theorem C13_max_children_is_floor (speed ratio : Nat) (hr : 0 < ratio) (m : Nat) :
+    maxChildrenOf speed ratio = m ↔ m * (ratio * 1024) ≤ speed * 10 ∧ speed * 10 < (m + 1) * (ratio * 1024) := by
+  have h := C13_max_children_documented speed ratio hr
+  constructor
+  · intro e
+    subst e
+    refine ⟨(h _).1 (Nat.le_refl _), ?_⟩
+    apply Nat.lt_of_not_le
+    intro hle
+    exact Nat.not_succ_le_self _ ((h _).2 hle)
+  · intro ⟨h1, h2⟩
+    apply Nat.le_antisymm
+    · apply Nat.le_of_lt_succ
+      apply Nat.lt_of_not_le
+      intro hle
+      exact Nat.lt_irrefl _ (Nat.lt_of_lt_of_le h2 ((h _).1 hle))
+    · exact (h _).2 h1
+
+/-- **The limits in force are the documented ones after every history.** When the statistics of the logged-in user
+are handled — after any history, with any `ParentMinSpeed` / `ParentSpeedRatio` received on this server connection
+(the defaults otherwise), sends suspended or not — child acceptance is on exactly when the speed reaches
+`min_speed * 1024`, the maximum is 0 when it is off, and when it is on (non-zero ratio) `k` children are within the
+maximum exactly when `k * (ratio * 1024) ≤ speed * 10`. -/
+theorem C13_limit_is_documented (ops : List XOp) (n : Name) (speed : Nat)
+    (hs : (xrun ops).d.session = some n) :
+    let ms := ((xrun ops).d.minSpeed).getD Generated.Dist.defaultMinSpeed
+    let r := ((xrun ops).d.ratio).getD Generated.Dist.defaultSpeedRatio
+    let after := (xrun (ops ++ [.base (.userStats n speed)])).d
+    (after.accept = true ↔ ms * 1024 ≤ speed) ∧
+    (after.accept = false → after.maxChildren = 0) ∧
+    (after.accept = true → 0 < r → ∀ k, k ≤ after.maxChildren ↔ k * (r * 1024) ≤ speed * 10) := by
+  intro ms r after
+  have ha : after = onUserStats (xrun ops).d n speed := by
+    simp only [after, xrun, List.foldl_append, List.foldl_cons, List.foldl_nil]
+    rfl
+  have hms : Generated.Dist.minSpeedUnit = 1024 := rfl
+  by_cases h1 : speed < ms * 1024
+  · have e : after = { (xrun ops).d with accept := false, maxChildren := 0, lastAccept := some false,
+                                          nAccept := (xrun ops).d.nAccept + 1 } := by
+      rw [ha]; unfold onUserStats; rw [if_pos hs, hms]; exact if_pos h1
+    rw [e]
+    refine ⟨⟨fun h => Bool.noConfusion h, fun h => absurd h1 (Nat.not_lt.2 h)⟩, fun _ => rfl,
+      fun h => Bool.noConfusion h⟩
+  · by_cases h2 : r = 0
+    · have e : after = { (xrun ops).d with accept := true } := by
+        rw [ha]; unfold onUserStats; rw [if_pos hs, hms]
+        show (if speed < ms * 1024 then _ else if r = 0 then _ else _) = _
+        rw [if_neg h1, if_pos h2]
+      rw [e]
+      exact ⟨⟨fun _ => Nat.not_lt.1 h1, fun _ => rfl⟩, fun h => Bool.noConfusion h,
+        fun _ h0 => absurd h2 (Nat.pos_iff_ne_zero.1 h0)⟩
+    · have e : after = { (xrun ops).d with accept := true, maxChildren := maxChildrenOf speed r,
+                                            lastAccept := some true, nAccept := (xrun ops).d.nAccept + 1 } := by
+        rw [ha]; unfold onUserStats; rw [if_pos hs, hms]
+        show (if speed < ms * 1024 then _ else if r = 0 then _ else _) = _
+        rw [if_neg h1, if_neg h2]
+      rw [e]
+      exact ⟨⟨fun _ => Nat.not_lt.1 h1, fun _ => rfl⟩, fun h => Bool.noConfusion h,
+        fun _ h0 k => C13_max_children_documented speed r h0 k⟩
+
 /-- **Admission against the statistics handled last**: every admission happens while the limits machine says that
 acceptance is on and that the number of children is below the maximum. -/
 theorem C13_admission_by_last_stats (ops : List XOp) (op : XOp) (d : ConnId)
@@ -200,6 +281,12 @@ example : (xrun demoSusp).d.parent = some 2 ∧ (xrun demoSusp).d.toldServer = s
 example : (xrun (demoSusp ++ [.srvRelease])).d.children = [1, 3] ∧ (xrun (demoSusp ++ [.srvRelease])).pend = [] ∧
     (xrun (demoSusp ++ [.srvRelease])).d.toldL 1 = some 2 ∧ (xrun (demoSusp ++ [.srvRelease])).d.toldR 1 = some 5 ∧
     (xrun (demoSusp ++ [.srvRelease])).d.live = [1, 2, 3] := by decide
+-- the whole wire domain: a ratio that is not a multiple of 10 (25, speed 20480: divider 2560, maximum 8 — not the 10
+-- that dividing the ratio first would give), a ratio above every speed on the wire (maximum 0 with acceptance on)
+example : maxChildrenOf 20480 25 = 8 ∧ maxChildrenOf 2048 15 = 1 ∧ maxChildrenOf 30000 35 = 8 ∧
+    maxChildrenOf 4294967295 4294967295 = 0 ∧ maxChildrenOf 4294967295 1 = 41943039 := by decide
+example : (xrun [.base (.sessionInit 0), .base (.speedRatio 25), .base (.userStats 0 20480)]).d.maxChildren = 8 ∧
+    (xrun [.base (.sessionInit 0), .base (.speedRatio 25), .base (.userStats 0 20480)]).d.accept = true := by decide
 -- limits bind at once: the statistics lower the maximum to 1 while the `AcceptChildren` send is suspended; the
 -- connection that arrives meanwhile is not admitted
 example : (xrun [.base (.sessionInit 0), .base (.userStats 0 10240), .base (.initialized 1 false), .srvBlock,
